@@ -224,7 +224,13 @@ func (h *FBDNSDB) ServeDNSWithRCODE(ctx context.Context, w dns.ResponseWriter, r
 	}
 
 	if h.cacheConfig.Enabled {
-		cacheKey = fmt.Sprintf("%.3d/%d/%d/%s", loc.LocID, state.QType(), state.QClass(), state.Name())
+		// listeners differ in their max-answer setting and share this cache: an address
+		// answer computed for one setting must not be served under another
+		keyMaxAns, ok := GetMaxAnswer(ctx)
+		if !ok {
+			keyMaxAns = DefaultMaxAnswer
+		}
+		cacheKey = fmt.Sprintf("%.3d/%d/%d/%d/%s", loc.LocID, keyMaxAns, state.QType(), state.QClass(), state.Name())
 		if v, ok := h.lru.Get(cacheKey); ok {
 			t := v.(cacheEntry).expiration
 			if v.(cacheEntry).gen != cacheGen {
